@@ -853,6 +853,8 @@ def register_builtins(L):
             od = st.get(v)
             if a in od.fields:
                 return True
+            if "__hasattr__" + a in od.fields:
+                return od.fields["__hasattr__" + a]        # stand-in objects may leave the presence of a method open (a symbolic Boolean)
             if E.repo.has_cls(od.cls) and E.repo.resolve_method(od.cls, a)[1] is not None:
                 return True
             if od.fields.get("__open__"):
@@ -1059,6 +1061,9 @@ def register_builtins(L):
                 return Opaque(name)
             shape = a.shape
             like_kind = a.kind        # *_like inherits the dtype of the template unless dtype= is given
+        if isinstance(shape, Ref) and isinstance(st.get(shape), ListData) and isinstance(st.get(shape).n, int) and st.get(shape).n <= 3:
+            ld = st.get(shape)
+            shape = tuple(ld.sel(k_) for k_ in range(ld.n))        # np.full([n, m], v): a list works as a shape
         if not isinstance(shape, tuple):
             shape = (shape,)
         if any(not (is_int_like(s)) for s in shape):
